@@ -29,6 +29,7 @@
     xpath_criterion_is_nonpositional buffer_hint_irrelevant_late
     once_replaces_first_match real_once_replaces_first_match union_attribute_operand_masks_match
     filter_is_chain_of_rewrites_with_once real_filter_is_chain_of_rewrites_with_once
+    real_once_replaces_first_xpath_match
 -/
 import Genshi.Lemmas.MatchSync
 import Genshi.Lemmas.MatchPipe
@@ -53,6 +54,7 @@ import Genshi.Lemmas.MatchXpInst
 import Genshi.Lemmas.MatchLateHints
 import Genshi.Lemmas.MatchRealOnceTree
 import Genshi.Lemmas.MatchChainOnce
+import Genshi.Lemmas.MatchOnceXp
 import Genshi.Props.C05
 namespace Genshi.Props.C12
 open Genshi Genshi.Match
@@ -940,6 +942,28 @@ example : (onceList ({ dACk with hints := ⟨false, true, false⟩ : Decl }.real
       ({ dACk with hints := ⟨false, true, false⟩ : Decl }.real [] []).st [] (forestR ++ forestR)).1
     = ((run 90 0 (some 1) (evItems (flattenList (forestR ++ forestR)))
         [{ dACk with hints := ⟨false, true, false⟩ : Decl }.real [] []]).map (·.2)).getD [] := by decide +kernel
+
+open Genshi.Path in
+/-- **`once="true"` replaces the first XPath match in document order.**  The stage that owns a declaration
+    `d` with the hint (paths under the static criterion `PatternXp`, the other declarations free of position
+    tests), on a forest of leaves and clean element trees: the output is `xpOnceForest (patternSel …)` — the
+    first element, in document order, that the XSLT-pattern reading of `d`'s path reaches (`Ref.reach` of
+    `descendant-or-self::s0/rest` inside its top-level tree, for one of the location paths) is replaced by
+    the body, its content as it stands; everything else passes unchanged. -/
+theorem real_once_replaces_first_xpath_match (ns : NsMap) (vs : Vars) (ds : List Decl) (hok : ∀ d ∈ ds, d.ok ns vs)
+    (i : Nat) (d : Decl) (hd : ds[i]? = some d) (ho : d.hints.matchOnce = true)
+    (hp : ∀ p ∈ d.paths, PatternXp ns vs d.force p)
+    (f : Nat) (forest : List Node) (r : List (MT RSt) × List Event) (hns : okList forest = true)
+    (ht : ∀ top ∈ forest, TreeFor ns vs d.paths top)
+    (h : run f i (some (i + 1)) (evItems (flattenList forest)) (ds.map (Decl.real ns vs)) = some r) :
+    r.2 = (xpOnceForest (patternSel d.paths ns (toXVars vs)) d.body forest).1 :=
+  real_once_stage_is_xpOnce ns vs ds hok i d hd ho hp f forest r hns ht h
+
+open Genshi.Path in
+/-- non-vacuity: `a//c[@k]` with `once` on `forestR ++ forestR` (two XPath matches): the first is replaced -/
+example : xpOnceForest (patternSel dACk.paths [] (toXVars [])) dACk.body (forestR ++ forestR)
+    = ([S 'a', S 'b', S 'x', E 'x', .start ⟨[], ['c']⟩ [], E 'c', E 'b', E 'a',
+        .start ⟨[], ['c']⟩ [(⟨[], ['k']⟩, ['2'])], E 'c'] ++ flattenList forestR, true) := by decide +kernel
 
 /-! ### the chain of rewrites with `once` templates among them -/
 
